@@ -511,7 +511,7 @@ func r12_5(r *Report, p *Program) {
 				}
 			case strings.HasSuffix(keyOf(v), "decorator.parentQueueKey"):
 				ok = true // recursion on the wrapped object
-			case strings.HasPrefix(desc, "assert<tools/cache.ExplicitKey>(p0)"):
+			case strings.HasPrefix(desc, "assert<cache.ExplicitKey>(p0)"):
 				ok = true // an explicit key is by definition already a queue key
 			default:
 				why = "returns " + desc + " as queue key: this is not in the " + sf("%d-field %q", nf, sep) + " domain that splitParentQueueKey accepts, so sync fails with 'invalid parent key' on every retry"
